@@ -1,1 +1,303 @@
-//! (to be filled in)
+//! E2 — stateless choice-tree explorer for environment answers (CHESS-style, deviation-bounded).
+//!
+//! A controlled `io::Write` / `io::Read` asks `Explorer::choose(menu_len)` on every call. Choice 0
+//! is the default answer; every other choice is a deviation of cost 1. `explore` runs the body
+//! with the empty prefix, then re-runs it for every alternative at every choice point after the
+//! replayed prefix whose total deviation count fits the bound. Replaying a prefix must reproduce
+//! the same menus; a divergence is a machinery error (exit 2), never a verdict.
+
+use std::cell::RefCell;
+use std::io;
+use std::rc::Rc;
+
+#[derive(Clone, Debug, Default)]
+pub struct Explorer {
+    prefix: Vec<u8>,
+    menus_of_prefix: Vec<u8>,
+    pub choices: Vec<u8>,
+    pub menus: Vec<u8>,
+}
+
+impl Explorer {
+    pub fn with_prefix(prefix: Vec<u8>, menus: Vec<u8>) -> Explorer {
+        Explorer { prefix, menus_of_prefix: menus, choices: Vec::new(), menus: Vec::new() }
+    }
+    pub fn choose(&mut self, menu_len: usize) -> usize {
+        let i = self.choices.len();
+        let c = if i < self.prefix.len() {
+            let recorded = self.menus_of_prefix.get(i).copied().unwrap_or(menu_len as u8);
+            if recorded as usize != menu_len || self.prefix[i] as usize >= menu_len {
+                eprintln!(
+                    "MACHINERY: schedule replay diverged at point {} (menu {} vs recorded {}, choice {})",
+                    i, menu_len, recorded, self.prefix[i]
+                );
+                std::process::exit(2);
+            }
+            self.prefix[i] as usize
+        } else {
+            0
+        };
+        self.choices.push(c as u8);
+        self.menus.push(menu_len as u8);
+        c
+    }
+    pub fn deviations(&self) -> usize {
+        self.choices.iter().filter(|c| **c != 0).count()
+    }
+}
+
+pub type Shared = Rc<RefCell<Explorer>>;
+
+#[derive(Default, Clone, Debug)]
+pub struct ExploreStats {
+    pub schedules: u64,
+    pub points: u64,
+    pub max_points: usize,
+    pub capped: bool,
+}
+
+/// Explore every schedule with at most `bound` deviations. `body` receives the explorer handle,
+/// runs the code under test once and checks its oracle. `cap` bounds the number of schedules
+/// (reported if hit).
+pub fn explore(bound: usize, cap: u64, mut body: impl FnMut(&Shared)) -> ExploreStats {
+    let mut stats = ExploreStats::default();
+    let mut stack: Vec<(Vec<u8>, Vec<u8>)> = vec![(Vec::new(), Vec::new())];
+    while let Some((prefix, menus)) = stack.pop() {
+        if stats.schedules >= cap {
+            stats.capped = true;
+            break;
+        }
+        let plen = prefix.len();
+        let ex: Shared = Rc::new(RefCell::new(Explorer::with_prefix(prefix, menus)));
+        body(&ex);
+        let ex = ex.borrow();
+        stats.schedules += 1;
+        stats.points += ex.choices.len() as u64;
+        stats.max_points = stats.max_points.max(ex.choices.len());
+        if ex.choices.len() < plen {
+            eprintln!("MACHINERY: schedule replay ended before its prefix was consumed");
+            std::process::exit(2);
+        }
+        // deviations already spent in the prefix
+        let mut spent = ex.choices[..plen].iter().filter(|c| **c != 0).count();
+        for i in plen..ex.choices.len() {
+            // choices after the prefix are all 0 (default)
+            if spent + 1 <= bound {
+                for alt in 1..ex.menus[i] {
+                    let mut p = ex.choices[..i].to_vec();
+                    p.push(alt);
+                    let m = ex.menus[..=i].to_vec();
+                    stack.push((p, m));
+                }
+            }
+            if ex.choices[i] != 0 {
+                spent += 1;
+            }
+        }
+    }
+    stats
+}
+
+// ------------------------------------------------------------------------------------------
+
+#[derive(Clone, Copy, Debug, PartialEq, Eq)]
+pub enum WAnswer {
+    All,
+    Accept(usize),
+    Zero,
+    Error,
+}
+
+/// Controlled sink. Records everything it accepted and whether it ever refused.
+pub struct CtlWriter {
+    pub ex: Shared,
+    pub data: Vec<u8>,
+    pub refused: bool, // returned Err or Ok(0) for a non-empty buffer
+    pub calls: usize,
+    pub err_payloads: usize,
+}
+
+impl CtlWriter {
+    pub fn new(ex: &Shared) -> CtlWriter {
+        CtlWriter { ex: ex.clone(), data: Vec::new(), refused: false, calls: 0, err_payloads: 0 }
+    }
+    fn menu(len: usize) -> Vec<WAnswer> {
+        let mut m = vec![WAnswer::All];
+        if len > 1 {
+            m.push(WAnswer::Accept(1));
+        }
+        if len > 2 {
+            m.push(WAnswer::Accept(2));
+        }
+        if len > 3 {
+            m.push(WAnswer::Accept(len - 1));
+        }
+        m.push(WAnswer::Zero);
+        m.push(WAnswer::Error);
+        m
+    }
+}
+
+impl io::Write for CtlWriter {
+    fn write(&mut self, buf: &[u8]) -> io::Result<usize> {
+        self.calls += 1;
+        if buf.is_empty() {
+            return Ok(0);
+        }
+        let menu = CtlWriter::menu(buf.len());
+        let c = self.ex.borrow_mut().choose(menu.len());
+        match menu[c] {
+            WAnswer::All => {
+                self.data.extend_from_slice(buf);
+                Ok(buf.len())
+            }
+            WAnswer::Accept(k) => {
+                self.data.extend_from_slice(&buf[..k]);
+                Ok(k)
+            }
+            WAnswer::Zero => {
+                self.refused = true;
+                Ok(0)
+            }
+            WAnswer::Error => {
+                self.refused = true;
+                self.err_payloads += 1;
+                Err(io::Error::new(io::ErrorKind::Other, "injected write error"))
+            }
+        }
+    }
+    fn flush(&mut self) -> io::Result<()> {
+        Ok(())
+    }
+}
+
+/// A sink with a fixed policy (no exploration): accept at most k bytes per call; optionally fail
+/// (error or zero) once `fail_at` bytes have been accepted.
+pub struct UniformWriter {
+    pub k: usize,
+    pub fail_at: Option<usize>,
+    pub fail_zero: bool,
+    pub data: Vec<u8>,
+    pub refused: bool,
+}
+
+impl io::Write for UniformWriter {
+    fn write(&mut self, buf: &[u8]) -> io::Result<usize> {
+        if buf.is_empty() {
+            return Ok(0);
+        }
+        let mut n = buf.len().min(self.k);
+        if let Some(f) = self.fail_at {
+            if self.data.len() >= f {
+                self.refused = true;
+                return if self.fail_zero { Ok(0) } else { Err(io::Error::new(io::ErrorKind::Other, "injected write error")) };
+            }
+            n = n.min(f - self.data.len());
+        }
+        self.data.extend_from_slice(&buf[..n]);
+        Ok(n)
+    }
+    fn flush(&mut self) -> io::Result<()> {
+        Ok(())
+    }
+}
+
+// ------------------------------------------------------------------------------------------
+
+/// Controlled source for chunking schedules: default = deliver as much as fits; deviations =
+/// `Interrupted`, a 1-byte short delivery.
+pub struct CtlReader<'a> {
+    pub ex: Shared,
+    pub data: &'a [u8],
+    pub pos: usize,
+    pub calls: usize,
+}
+
+impl<'a> CtlReader<'a> {
+    pub fn new(ex: &Shared, data: &'a [u8]) -> CtlReader<'a> {
+        CtlReader { ex: ex.clone(), data, pos: 0, calls: 0 }
+    }
+}
+
+impl<'a> io::Read for CtlReader<'a> {
+    fn read(&mut self, buf: &mut [u8]) -> io::Result<usize> {
+        self.calls += 1;
+        if buf.is_empty() {
+            return Ok(0);
+        }
+        let avail = (self.data.len() - self.pos).min(buf.len());
+        // menu: 0 = default, 1 = Interrupted, 2 = short (only if avail > 1)
+        let menu_len = if avail > 1 { 3 } else { 2 };
+        // Interrupted forever would never terminate; the explorer's bound limits how many are taken.
+        let c = self.ex.borrow_mut().choose(menu_len);
+        match c {
+            0 => {
+                buf[..avail].copy_from_slice(&self.data[self.pos..self.pos + avail]);
+                self.pos += avail;
+                Ok(avail)
+            }
+            1 => Err(io::Error::new(io::ErrorKind::Interrupted, "injected EINTR")),
+            _ => {
+                buf[0] = self.data[self.pos];
+                self.pos += 1;
+                Ok(1)
+            }
+        }
+    }
+}
+
+/// Fault-injecting source (no exploration): delivers `chunk` bytes per call and fails at byte
+/// offset `fail_at`, either once (transient) or on every later call (sticky). The error carries a
+/// unique payload so that identity can be checked on the way out.
+pub struct FaultReader<'a> {
+    pub data: &'a [u8],
+    pub pos: usize,
+    pub chunk: usize,
+    pub fail_at: usize,
+    pub sticky: bool,
+    pub fired: usize,
+    pub payload: u64,
+}
+
+#[derive(Debug)]
+pub struct Payload(pub u64);
+impl std::fmt::Display for Payload {
+    fn fmt(&self, f: &mut std::fmt::Formatter<'_>) -> std::fmt::Result {
+        write!(f, "injected read fault #{}", self.0)
+    }
+}
+impl std::error::Error for Payload {}
+
+impl<'a> io::Read for FaultReader<'a> {
+    fn read(&mut self, buf: &mut [u8]) -> io::Result<usize> {
+        if buf.is_empty() {
+            return Ok(0);
+        }
+        if self.pos >= self.fail_at && (self.sticky || self.fired == 0) {
+            self.fired += 1;
+            return Err(io::Error::new(io::ErrorKind::Other, Payload(self.payload)));
+        }
+        let mut avail = (self.data.len() - self.pos).min(buf.len()).min(self.chunk);
+        if self.pos < self.fail_at && (self.sticky || self.fired == 0) {
+            avail = avail.min(self.fail_at - self.pos);
+        }
+        buf[..avail].copy_from_slice(&self.data[self.pos..self.pos + avail]);
+        self.pos += avail;
+        Ok(avail)
+    }
+}
+
+/// Plain chunked reader (k bytes per call).
+pub struct ChunkReader<'a> {
+    pub data: &'a [u8],
+    pub pos: usize,
+    pub chunk: usize,
+}
+impl<'a> io::Read for ChunkReader<'a> {
+    fn read(&mut self, buf: &mut [u8]) -> io::Result<usize> {
+        let avail = (self.data.len() - self.pos).min(buf.len()).min(self.chunk);
+        buf[..avail].copy_from_slice(&self.data[self.pos..self.pos + avail]);
+        self.pos += avail;
+        Ok(avail)
+    }
+}
